@@ -4,6 +4,7 @@ path is recorded in ctx.assumed_models and lands in the evidence."""
 import ast
 import builtins
 import copy
+import functools
 import itertools
 import operator
 import types
@@ -82,6 +83,44 @@ class Models(object):
             m = None
         if m is not None:
             return lambda a, k: m(*a, **k)
+        if isinstance(fn, functools._lru_cache_wrapper):
+            # functools.lru_cache: the wrapped function is interpreted once per distinct argument tuple and the SAME
+            # result object is handed out again (that aliasing is the point of modelling it).  Concrete hashable
+            # arguments are compared by value, symbolic ones by identity (two different symbolic strings that happen
+            # to be equal miss the cache here: fewer hits than natively, never more).
+            interp = self.interp
+
+            def cached(a, k, fn=fn):
+                def part(x):
+                    if isinstance(x, SStr):
+                        # structurally equal strings with holes are equal strings (same literals, same holes)
+                        sig = []
+                        for at in x.atoms:
+                            if isinstance(at, Lit):
+                                sig.append(("L", at.s))
+                            elif isinstance(at, Val):
+                                sig.append(("V", str(at.v)))
+                            elif isinstance(at, Pct):
+                                sig.append(("P", str(at.u.v)))
+                            elif isinstance(at, IntLit):
+                                sig.append(("I", str(at.e)))
+                            else:
+                                sig.append(("?", id(at)))
+                        return ("sstr", tuple(sig))
+                    if isinstance(x, Sym):
+                        return ("sym", id(x))
+                    try:
+                        hash(x)
+                        return ("val", type(x).__name__, x)
+                    except TypeError:
+                        raise TypeError("unhashable type: '%s'" % type(x).__name__)
+                key = (id(fn), tuple(part(x) for x in a), tuple(sorted((kk, part(v)) for kk, v in k.items())))
+                store = self.ctx.stash.setdefault("$lru_cache", {})
+                if key not in store:
+                    store[key] = interp.call(fn.__wrapped__, list(a), dict(k))
+                    self.used("functools.lru_cache (same object returned for the same arguments)")
+                return store[key]
+            return cached
         if isinstance(fn, operator.itemgetter):
             keys = fn.__reduce__()[1]
             if len(keys) == 1:
